@@ -356,6 +356,7 @@ func c15R4(p *engine.Prog, r *engine.Report) {
 		}
 		r.Check(okCost, "C15-R4", "applyTxOnState|receipt.GasCost = GetGasCost(state, receipt.GasUsed)", p.Pos(f.Pos()), "cost of exactly the reported gas", "gas cost is not computed from the reported (clamped) gas")
 	}
+	gasLimitFeeRateRule(p, r, "C15-R4")
 	r.Floor("C15-R4", 8, "2 call sites + limit + 2x2 clamp + cost")
 	// ---------------- R6: buffered balances — reads go through the buffer (shared with C04-R7) and a
 	// read-modify-write of a balance is not interleaved with another write of the buffer
